@@ -115,10 +115,11 @@ func (e *storeEnv) run(reqs []childReq) childRun {
 	var werr error
 	select {
 	case werr = <-done:
-	case <-time.After(30 * time.Second):
+	case <-time.After(time.Duration(30+10*len(reqs)) * time.Second):
+		// (a slow child — a store polling a stale lock, a loaded machine — is no verdict about the property)
 		_ = cmd.Process.Kill()
 		<-done
-		return childRun{Exit: -3, Stderr: "child did not finish within 30s"}
+		return childRun{Exit: -3, Stderr: "HARNESS-SELFTEST child did not finish within its time allowance"}
 	}
 	r := childRun{Stderr: stderr.String()}
 	if werr != nil {
@@ -346,7 +347,7 @@ func c19Property(env *storeEnv) func(t *rapid.T) {
 						// the statement promises what holds *after a successful store*: a store that refuses an unusual
 						// identifier with an error return breaks no clause. Plain identifiers in a healthy directory
 						// must be storable, otherwise nothing here would be exercised.
-						if len(id) == 1 && id[0] >= 'a' && id[0] <= 'z' {
+						if len(id) == 1 && id[0] >= 'a' && id[0] <= 'z' && damaged[id] == "" {
 							t.Fatalf("store(%q) failed: %s%s", id, serr, history())
 						}
 						hx.Class("store_refused_with_error")
@@ -449,8 +450,9 @@ func c19Property(env *storeEnv) func(t *rapid.T) {
 				if baseBroken != "" {
 					t.Skip("base broken")
 				}
-				idA := rapid.SampledFrom(c19IDs[:8]).Draw(t, "idA")
-				idB := rapid.SampledFrom(c19IDs[:8]).Draw(t, "idB")
+				// (plain identifiers: a store may refuse unusual ones, which is not this action's subject)
+				idA := rapid.SampledFrom([]string{"a", "b", "c", "d"}).Draw(t, "idA")
+				idB := rapid.SampledFrom([]string{"a", "b", "c", "d"}).Draw(t, "idB")
 				if idA == idB {
 					t.Skip("same id")
 				}
